@@ -61,6 +61,10 @@ func judgeDangling(run *vc.Run, c *danglingCase, explain bool) {
 		return
 	default:
 		run.Inconclusive("dangling: goa does not accept the unmutated spec (" + c.base.Status + ")")
+		run.Count("base_not_accepted_profile_"+c.profile, 1)
+		if os.Getenv("VERIF_C12_DEBUG") != "" {
+			fmt.Fprintf(os.Stderr, "DEBUG base %s profile=%s: %s\n", c.base.Status, c.profile, chaos.HeadS(c.base.Errors, 300))
+		}
 		say("oracle: base not accepted, mutant not judged (inconclusive)")
 		return
 	}
